@@ -24,6 +24,7 @@ type SpecEnv struct {
 	local  func(name string) (Value, bool) // named locals of the function (current values)
 	depth  int
 	bound  map[string]bool // quantified / predicate-bound names (shadow locals)
+	boxes  map[string]PtrV // captured variables of a closure: name -> the box holding it
 }
 
 func (env *SpecEnv) with(name string, v Value) *SpecEnv {
